@@ -111,12 +111,12 @@ def jacobian_in(spec, interface, diff_method, extra, xval):
 
 
 def reference_jacobian(spec, refs_all, tp, xval, D=4):
-    """rows in measurement order (var included) x QNode args"""
+    """rows in measurement order (var included) x QNode args; also the gate-level gradient G and d theta / d x"""
     theta = []
     for (si, pi) in tp:
         theta.append(expr_val(spec["steps"][si]["params"][pi], xval, math))
     dth = [expr_grad(spec["steps"][si]["params"][pi], xval) for (si, pi) in tp]
-    rows, vals = [], []
+    rows, vals, G = [], [], []
     for r in refs_all:
         if r["kind"] == "lin":
             g = [pnum(r["dE"][p], theta, D) for p in range(len(tp))]
@@ -127,9 +127,69 @@ def reference_jacobian(spec, refs_all, tp, xval, D=4):
             val = pnum(r["E2"], theta, D) - e1 * e1
         g = [complex(z) for z in g]
         assert all(abs(z.imag) < 1e-9 for z in g), g
+        G.append([z.real for z in g])
         rows.append([sum(g[p].real * dth[p][a] for p in range(len(tp))) for a in range(len(xval))])
         vals.append(complex(val).real)
-    return np.array(rows, dtype=float), np.array(vals, dtype=float)
+    return np.array(rows, dtype=float), np.array(vals, dtype=float), np.array(G, dtype=float).reshape(len(rows), len(tp)), np.array(dth, dtype=float).reshape(len(tp), len(xval)), theta
+
+
+def numeric_tape(spec, theta_by_tp, tp):
+    ops = []
+    train = []
+    idx = 0
+    for si, s in enumerate(spec["steps"]):
+        ps = []
+        for pi, p in enumerate(s["params"]):
+            if p[0] == "fix":
+                ps.append(p[1])
+            else:
+                ps.append(qp.numpy.array(theta_by_tp[tp.index((si, pi))], requires_grad=True))
+                train.append(idx)
+            idx += 1
+        ops.append(getattr(qp, s["name"])(*ps, wires=s["wires"]))
+    return qp.tape.QuantumScript(ops, [meas_of(m) for m in spec["meas"]], trainable_params=train)
+
+
+TRANSFORMS = [("ps", "param_shift", {}), ("psb", "param_shift", {"broadcast": True}),
+              ("had", "hadamard_grad", {"aux_wire": "AUX", "mode": "standard"}), ("hadrev", "hadamard_grad", {"aux_wire": "AUX", "mode": "reversed"}),
+              ("haddir", "hadamard_grad", {"mode": "direct"}), ("hadrd", "hadamard_grad", {"mode": "reversed-direct"}),
+              ("hadauto", "hadamard_grad", {"aux_wire": "AUX", "mode": "auto"}),
+              ("fd", "finite_diff", {}), ("fdc", "finite_diff", {"approx_order": 2, "strategy": "center"})]
+
+
+def run_transform(spec, refs, tp, tname, fname, kw, xval):
+    """the gradient transform applied to the numeric tape directly (gate-level Jacobian)"""
+    ref, vals, G, dth, theta = reference_jacobian(spec, refs, tp, xval)
+    kw = dict(kw)
+    if kw.get("aux_wire") == "AUX":
+        kw["aux_wire"] = spec["nw"]
+    tape = numeric_tape(spec, theta, tp)
+    try:
+        gt, fn = getattr(qp.gradients, fname)(tape, **kw)
+        res = qp.execute(gt, qp.device("default.qubit"), diff_method=None) if len(gt) else ()
+        out = fn(res)
+    except Exception as e:
+        return {"status": "rejected", "err": type(e).__name__ + ": " + str(e)[:160].replace("\n", " ")}
+    # out: per measurement (tuple) per parameter (tuple) arrays
+    P = len(tp)
+    nm = len(spec["meas"])
+    rows = []
+    try:
+        per_m = out if nm > 1 else (out,)
+        for mi in range(nm):
+            pm = per_m[mi] if P > 1 else (per_m[mi],)
+            cols = [np.asarray(pm[p], dtype=float).reshape(-1) for p in range(P)]
+            for c in range(len(cols[0])):
+                rows.append([cols[p][c] for p in range(P)])
+        J = np.array(rows, dtype=float)
+    except Exception as e:
+        return {"status": "shape", "err": repr(e)[:200]}
+    if J.shape != G.shape:
+        return {"status": "shape", "got": list(J.shape), "want": list(G.shape)}
+    tol = 5e-5 if fname == "finite_diff" else 1e-8
+    if (np.abs(J - G) > tol).any() or not np.all(np.isfinite(J)):
+        return {"status": "mismatch", "jac": J.tolist(), "ref": G.tolist(), "theta": theta, "tol": tol}
+    return {"status": "ok"}
 
 
 CONFIGS = []
@@ -159,7 +219,7 @@ def run_config(spec, refs, tp, cfgt, xval, spsa_dirs):
         gk["aux_wire"] = spec["nw"]
     if dm == "spsa":
         extra.setdefault("gradient_kwargs", {}).update({"num_directions": spsa_dirs, "sampler_rng": 1234, "h": 1e-3})
-    ref, vals = reference_jacobian(spec, refs, tp, xval)
+    ref, vals, G, dth, theta = reference_jacobian(spec, refs, tp, xval)
     try:
         J = jacobian_in(spec, itf, dm, extra, xval)
     except Exception as e:   # the configuration does not accept this circuit
@@ -170,8 +230,8 @@ def run_config(spec, refs, tp, cfgt, xval, spsa_dirs):
     else:
         return {"status": "shape", "got": list(J.shape), "want": list(ref.shape)}
     if dm == "spsa":
-        gn = np.linalg.norm(ref, axis=1, keepdims=True)
-        tol = 7 * gn * math.sqrt(max(1, ref.shape[1]) / spsa_dirs) + 5e-3
+        gn = np.linalg.norm(G, axis=1, keepdims=True)                     # gate-level gradient norm per output row
+        tol = 7 * gn * np.sum(np.abs(dth), axis=0, keepdims=True) / math.sqrt(spsa_dirs) + 5e-3
     else:
         tol = np.full(ref.shape, 5e-5 if dm == "finite-diff" else 1e-7)
     bad = np.abs(J - ref) > tol
@@ -187,13 +247,22 @@ def main():
         xval = [rng.uniform(-2.5, 2.5) for _ in range(spec["nx"])]
         must = item.get("must_accept", False)
         cfgs = list(CONFIGS) if (must or req["n_cfg"] >= len(CONFIGS)) else rng.sample(CONFIGS, req["n_cfg"])
+        if item.get("cfg_slice"):
+            a, b = item["cfg_slice"]
+            cfgs = cfgs[a::b]
+        for tname, fname, kw in (TRANSFORMS if not item.get("cfg_slice") or item["cfg_slice"][0] == 0 else []):
+            r = run_transform(spec, refs, tp, tname, fname, kw, xval)
+            d = out["stats"].setdefault("transform:" + tname, {})
+            d[r["status"]] = d.get(r["status"], 0) + 1
+            if r["status"] not in ("ok", "rejected"):
+                out["results"].append({"si": item.get("si", si), "config": "transform:" + tname, "x": xval, "result": r})
         for cfgt in cfgs:
             r = run_config(spec, refs, tp, cfgt, xval, req["spsa_dirs"])
             ck = f"{cfgt[0]}/{cfgt[1]}/{json.dumps(cfgt[2], sort_keys=True)}"
             d = out["stats"].setdefault(ck, {})
             d[r["status"]] = d.get(r["status"], 0) + 1
             if r["status"] != "ok" and not (r["status"] == "rejected" and not must):
-                out["results"].append({"si": si, "config": ck, "x": xval, "result": r})
+                out["results"].append({"si": item.get("si", si), "config": ck, "x": xval, "result": r})
             elif r["status"] == "rejected":
                 e = out["stats"].setdefault("_reject_reasons", {})
                 k = r["err"][:70]
